@@ -274,28 +274,8 @@ class DiameterAssociation(object):
     
             stream += msg.dump()
 
-        if self.transport:
-            if not self.transport.is_write_mode():
-                diameter_conn_logger.debug("Transport Layer is not in WRITE "\
-                                           "mode, so we can send data stream.")
-
-                self.transport._set_selector_events_mask("rw", stream)
-            else:
-                diameter_conn_logger.debug("Transport Layer is in WRITE "\
-                                           "mode, so we cannot send data "\
-                                           "stream.")
-
-                while not self._stop_threads and self.transport:
-                    self.transport.write_mode_on.wait()
-                    if not self.transport.is_write_mode():
-                        diameter_conn_logger.debug("Transport Layer is not in "\
-                                                   "WRITE mode again, so we "\
-                                                   "can send data stream.")
-    
-                        self.transport._set_selector_events_mask("rw", stream)
-                        
-                        # maybe include a verification here before the "break" if a given message has been sent from transport layer.
-                        break
+        if self.transport and stream:
+            self.transport._set_selector_events_mask("rw", stream)
 
 
         self.lock.release()
